@@ -12,3 +12,4 @@ import HitenModel.Props.C20
 import HitenModel.Props.C20_Tree
 import HitenModel.Props.C11
 import HitenModel.Props.C12
+import HitenModel.Props.C04
